@@ -82,6 +82,14 @@ class Unsupported(AnalysisError):
     pass
 
 
+class InlinedRaise(Exception):
+    """A repository helper inlined by the interpreter raises on the current path."""
+
+    def __init__(self, name: str):
+        super().__init__(name)
+        self.name = name
+
+
 class TermInterp:
     """decide(test_node, env) -> True/False/None.
     call_hook(name, call_node, args, kwargs, env, interp) -> term or NotImplemented.
@@ -279,7 +287,11 @@ class TermInterp:
                     i += 1
                     continue  # docstring
                 if isinstance(s.value, ast.Call):
-                    self.ev(s.value, env)  # evaluated for its hooks; result discarded
+                    try:
+                        self.ev(s.value, env)  # evaluated for its hooks; result discarded
+                    except InlinedRaise as ir:
+                        out.append(Path(list(conds), "raise", ir.name, dict(env)))
+                        return
                     i += 1
                     continue
                 raise Unsupported(f"expression statement {norm(s)[:60]}")
